@@ -12,7 +12,7 @@ oracle: on the real code: Pandas result vs the result of to_sql() run on SQLite,
 import json, os, glob
 import lib, pipes, execcorr as X, semstrict as SS
 
-N = {"quick": 110, "thorough": 1600}
+N = {"quick": 110, "thorough": 1000}
 VARIANTS = [("sqlite", "sqlite", None)]
 
 
